@@ -6,23 +6,15 @@ import json, os
 HERE = os.path.dirname(os.path.abspath(__file__))
 ALL = ["C%02d" % i for i in range(1, 21)]
 
-PBT = "property-based testing (pgregory.net/rapid)"
-CHECKS = {
-    "C02": dict(engine="refcodec", cat="exploration",
-                text="exhaustive enumeration of the 8/16-bit sub-spaces (all values x all 256 tags for 8-bit types) plus rapid-generated boundary-dense wide integers, float bit patterns and strings; byte-exact differential against an independent reference encoder, bit-exact round trip, sentinel-based position check, cross-width reads",
-                note="trusts harness/refcodec (reference encoder written from the wire-format description) and the Go toolchain",
-                tech=PBT + " + exhaustive enumeration; oracle: byte-exact differential against reference encoder, round trip, cross-width metamorphic relation",
-                ref="DESIGN.md section 3 / C02"),
-}
-
 NOT_BUILT = "check not built yet in this round (planned with the same technique, see DESIGN.md section 3); not claimed until it exists"
 
 
 def main():
-    extra = os.path.join(HERE, "manifest_checks.json")
-    checks = dict(CHECKS)
-    if os.path.exists(extra):
-        checks.update(json.load(open(extra)))
+    import glob
+    checks = {}
+    for f in sorted(glob.glob(os.path.join(HERE, "harness", "*", "manifest.json"))):
+        c = json.load(open(f))
+        checks[c["property"]] = c
     m = {
         "version": 1,
         "setup_cmd": "./setup.sh",
